@@ -47,6 +47,9 @@ func main() {
 		os.Exit(2)
 	}
 	switch os.Args[1] {
+	case "mkknown":
+		mkknown()
+		return
 	case "replay":
 		if len(os.Args) < 3 {
 			fmt.Fprintln(os.Stderr, "usage: verif replay <file>")
